@@ -148,9 +148,12 @@ prop("C07",
      outside="chunk lists longer than 4 (the step harnesses are position-independent, only the run-length helper is bounded by n<=4); offsets >= 40 and sizes > 3 in the step harnesses (the helper is full width); transfer failures (C08)",
      assumptions=["invariant I (asserted after each step): a request is open => num_adjacent_reads >= 1 and covers chunks[chunk_index..][..num_adjacent_reads]"])
 h("c07_adjacent_reads_spec", ["C07"], "quick", "n 1..4 chunks; offsets any u64 <= MAX-2^33, sizes any <= u32::MAX", "adjacent_reads == length of the maximal adjacent run (reference written independently)", ["ChunkReader::adjacent_reads"])
-h("c07_new_request_step", ["C07", "C17"], "quick", "4 chunks, offsets < 40, sizes 1..3, any order/gaps: symbolic; position idx symbolic; retry settings symbolic; stale buffer bytes",
-  "from the between-runs state one poll creates exactly one range request whose (offset,size) span first byte of first .. last byte of last chunk of the maximal adjacent run, sets the run counter, clears stale bytes",
-  CR, [STUB_REQWEST, STUB_INNER], heavy=True)
+for nm, u in (("s123_i0", "quick"), ("s123_i1", "quick"), ("s123_i2", "quick"), ("s312_i0", "quick"), ("s312_i1", "quick"),
+              ("s221_i1_stale", "quick"), ("s221_i0_stale", "quick"), ("s233_i2_stale", "quick")):
+    h("c07_new_request_step_" + nm, ["C07", "C17"], u,
+      "3 chunks with the sizes and the position in the name (concrete), offsets < 40 symbolic: any order, gaps, adjacency; retry settings symbolic; `_stale`: leftover bytes of the previous run in the buffer",
+      "from the between-runs state one poll creates exactly one range request whose (offset,size) span first byte of first .. last byte of last chunk of the maximal adjacent run starting at the position, sets the run counter, clears stale bytes, hands the retry settings on",
+      CR, [STUB_REQWEST, STUB_INNER])
 h("c07_serve_chunk_step", ["C07", "C08"], "quick", "3 chunks symbolic; position, run counter r>=1, buffered bytes (>= next chunk, <= 6) symbolic",
   "a buffered chunk is served as exactly its `size` bytes in order, without a request; index+1, counter-1, request dropped iff the run is finished; the rest of the buffer is the following bytes",
   CR, [STUB_REQWEST])
